@@ -3,7 +3,7 @@
             (op backend shape ((vals masks) ...))         representations on masked inputs
    reply    (1 payload) | (0 error-code);  floats are binary64 bit patterns.  Definitions only. *)
 From Coq Require Import List Arith Bool ZArith PrimFloat.
-Require Import Tensor Num Result Tree C09_Masked C09_Ops C09_Facts Gen_C09.
+Require Import Tensor Num Result Tree C09_Masked C09_Ops C09_TfNorm C09_Facts Gen_C09.
 Import ListNotations.
 
 (* ---- external numerics of the executed instance -------------------------------------------------------------- *)
@@ -54,12 +54,18 @@ Definition body_op (op : Z) (np tf : bool) (b : body F_ops) (p : tree) : tree :=
   if (op =? 1)%Z then of_result of_body ((if np then np_get_points F_ops else if tf then tf_get_points F_ops Gen_C09.tf_gather_int_cast else t_get_points F_ops) (t_nats (t_nth 0 p)) b)
   else if (op =? 2)%Z then of_result of_body ((if np then np_select_frames F_ops else if tf then tf_select_frames F_ops else t_select_frames F_ops) (t_nats (t_nth 0 p)) b)
   else if (op =? 3)%Z then
-    Nd [L 1; of_body (np_normalize F_ops FE (t_nat (t_nth 0 p)) (t_nat (t_nth 1 p)) (t_f (t_nth 2 p)) b)]
+    (* Pose.normalize: NumPy and TensorFlow bodies (Torch: MaskedTensor.mean is not defined -> NotImplementedError) *)
+    (if np then Nd [L 1; of_body (np_normalize F_ops FE (t_nat (t_nth 0 p)) (t_nat (t_nth 1 p)) (t_f (t_nth 2 p)) b)]
+     else if tf then Nd [L 1; of_body (tf_normalize F_ops (t_nat (t_nth 0 p)) (t_nat (t_nth 1 p)) (t_f (t_nth 2 p)) b)]
+     else of_result of_body (Err NotImplemented))
   else if (op =? 4)%Z then
-    let r := np_normalize_distribution F_ops FE (t_nat (t_nth 0 p)) b in
-    Nd [L 1; Nd [of_body (fst r); of_cells (fst (snd r)); of_cells (snd (snd r))]]
+    (if np || tf then
+       let r := (if np then np_normalize_distribution F_ops FE else tf_normalize_distribution F_ops) (t_nat (t_nth 0 p)) b in
+       Nd [L 1; Nd [of_body (fst r); of_cells (fst (snd r)); of_cells (snd (snd r))]]
+     else of_result of_body (Err NotImplemented))
   else if (op =? 5)%Z then
-    Nd [L 1; of_body (np_unnormalize_distribution F_ops (t_fs (t_nth 0 p)) (t_fs (t_nth 1 p)) b)]
+    Nd [L 1; of_body ((if np then np_unnormalize_distribution F_ops else t_unnormalize_distribution F_ops)
+                        (t_fs (t_nth 0 p)) (t_fs (t_nth 1 p)) b)]
   else if (op =? 6)%Z then Nd [L 1; of_body (np_flip F_ops (t_nat (t_nth 0 p)) b)]
   else if (op =? 7)%Z then
     Nd [L 1; of_body ((if np then np_matmul F_ops else t_matmul F_ops) (t_nat (t_nth 0 p)) (t_fs (t_nth 1 p)) b)]
